@@ -138,7 +138,8 @@ class StatWorld(QueryWorld):
 
     def call_method(self, ip, obj, name, args, kwargs, node):
         if isinstance(obj, SnapView) and name == "keys" and not args:
-            return ListObj(list(self.ids))
+            from .absint import SetObj
+            return SetObj(list(self.ids))       # a keys view: iterable in insertion order, supports & | -
         return super().call_method(ip, obj, name, args, kwargs, node)
 
     def load_attr(self, ip, obj, attr, node):
@@ -156,7 +157,9 @@ class StatWorld(QueryWorld):
         if name == "len" and len(args) == 1 and isinstance(args[0], SnapView):
             return Const(len(self.ids))
         if name == "combinations" and len(args) == 2 and isinstance(args[1], Const):
-            seq = args[0].drain() if isinstance(args[0], IterV) else list(args[0].items)
+            seq = ip._seq(args[0], node)
+            if seq is None:
+                return None
             return IterV([TupleV(list(c)) for c in itertools.combinations(seq, args[1].v)])
         return super().call_builtin(ip, name, args, kwargs, node)
 
@@ -166,15 +169,30 @@ class StatWorld(QueryWorld):
         return super().resolve_name(ip, name, node)
 
 
-def check_ratio_statistics(repo: Repo, rep: Report):
+class RatioWorld(StatWorld):
+    """Snapshot ids t-2, t+1 .. t+5, t+8 (|T| = 7, span 11): every stored pair is present at the two outer ids, its presence
+    at the three inner ones is the valuation; the timelines are materialised accordingly (runs, nested runs, gaps), so a
+    statistic computed from the stored spans sees the same facts as one computed through the presence test."""
+    INNER = (1, 2, 3, 4, 5)
+
+    def __init__(self, *a, **k):
+        super().__init__(*a, **k)
+        inner = [T(o) for o in self.INNER]
+        self.materialise_timelines(inner)
+        self.ids = [T(self.INNER[0] - 3)] + inner + [T(self.INNER[-1] + 3)]
+
+
+def check_ratio_statistics(repo: Repo, rep: Report, tier="quick"):
     """coverage, node_contribution, uniformity, node_pair_uniformity, density, pair_density, node_presence on the path
-    A-B-C + isolated D with two snapshot ids; presence of each pair at each id is an uninterpreted predicate."""
+    A-B-C + isolated D with five snapshot ids; presence of each pair at the inner ids is an uninterpreted predicate."""
     cls, rel = "DynGraph", DYNGRAPH
     methods = repo.class_methods(rel, cls)
     shape = SHAPES[False][0]
-    ids = ["t+1", "t+4"]
+    inner = [repr(T(o)) for o in RatioWorld.INNER]
+    outer = [repr(T(RatioWorld.INNER[0] - 3)), repr(T(RatioWorld.INNER[-1] + 3))]
+    ids = [outer[0]] + inner + [outer[1]]
     keys = sorted({shape.key(*e) for e in shape.edges}, key=str)
-    ot = OrderType([["q"], ["t"]], [None], 8)
+    ot = OrderType([["q"], ["t"]], [None], 12)
     n = 0
     specs = {
         "coverage": ((), lambda P: Fraction(sum(len(P.V(t)) for t in ids), len(ids) * len(shape.nodes))),
@@ -193,16 +211,22 @@ def check_ratio_statistics(repo: Repo, rep: Report):
         fn = methods[name]
         construct = repo.construct(rel, cls + "." + name)
         params = [a.arg for a in fn.args.args][1:]
-        for vals in itertools.product((False, True), repeat=len(keys) * len(ids)):
+        if tier == "quick":
+            # runs, a run with holes, nested runs (one pair's run inside the other's), staggered and disjoint runs
+            patterns = [(), (1, 2, 3, 4, 5), (2, 4), (1, 2), (3,), (4, 5), (1, 3, 5)]
+        else:
+            patterns = [tuple(o for o, b in zip(RatioWorld.INNER, bits) if b) for bits in itertools.product((0, 1), repeat=len(inner))]
+        for combo in itertools.product(patterns, repeat=len(keys)):
             seed = {}
-            it = iter(vals)
-            for k in keys:
-                for t in ids:
-                    seed[("present", k, t)] = next(it)
+            for k, on in zip(keys, combo):
+                for o, t in zip(RatioWorld.INNER, inner):
+                    seed[("present", k, t)] = o in on
+                for t in outer:
+                    seed[("present", k, t)] = True
             n += 1
 
             def once(ch):
-                w = StatWorld(cls, shape, ch, methods, {})
+                w = RatioWorld(cls, shape, ch, methods, {})
                 ip = Interp(w, ot, max_depth=10)
                 env = {"self": SelfV()}
                 env.update({p: NodeV(a) for p, a in zip(params, args)})
@@ -228,7 +252,7 @@ def check_ratio_statistics(repo: Repo, rep: Report):
                 if not ok:
                     rep.finding("Q.statistics", construct, "wrong-value", "%s answers %s, its stream-graph definition gives %s" % (
                         name, got, want if not isinstance(want, Fraction) else "%s (= %.4f)" % (want, float(want))), witness=wit)
-        rep.ob("Q.statistics", construct, "definition matched on %d presence valuations" % (2 ** (len(keys) * len(ids))))
+        rep.ob("Q.statistics", construct, "definition matched on %d presence valuations over 7 snapshot ids" % (len(patterns) ** len(keys)))
     return n
 
 
